@@ -1499,7 +1499,6 @@ func indexesLoadedWord(fn *ssa.Function, ph *ssa.Phi) bool {
 	return found
 }
 
-
 // ruleKmvFlow: compileExprWithKMVPropagation may hand back 256|k, an RK-encoded constant index,
 // instead of a register. Only operand positions that the VM reads through rkValue/rkString understand
 // that encoding. The rule takes the RK-capable positions from the handlers and follows every
@@ -1612,7 +1611,6 @@ func ruleKmvFlow(c *Ctx) {
 		}
 	}
 }
-
 
 // ruleConstructor: F49/F50.
 func ruleConstructor(c *Ctx) {
@@ -1797,7 +1795,6 @@ func entryLoadOfParamAny(fn *ssa.Function, v, param ssa.Value) bool {
 	}
 	return false
 }
-
 
 // ruleForCoercion: the numeric for converts string control values (Lua 5.1 forprep applies tonumber):
 // the FORPREP handler goes through the one numeral reader before it tests for numbers (F61).
